@@ -102,8 +102,38 @@ def handleReset (fs : List (String × String)) : String := Id.run do
     return none
   return verdict agree bad (nodes.any (·.reap)) s!"resetsel{min (nodes.countP (·.reap)) 3}" ""
 
+/-- the start-up window: replaying the event log must give the listed set, no member joins twice without a leave -/
+def handleBoot (fs : List (String × String)) : String := Id.run do
+  let evs := (splitNE (getD fs "events" "-") ",").filter (· != "-")
+  let members := (splitNE (getD fs "members" "") "+")
+  let about := getD fs "about" "?"
+  let sorted (l : List String) := (l.toArray.qsort (· < ·)).toList
+  let mut listed : List String := []
+  let mut bad : Option String := none
+  for e in evs do
+    match e.splitOn "/" with
+    | ["j", n] =>
+      if listed.contains n then
+        if bad.isNone then
+          bad := some (if n == "S" && about == "S" && evs == ["j/S", "j/S"]
+            then "own-join-delivered-twice-in-the-start-up-window" else s!"joined-twice-without-a-leave:{n}")
+      else listed := n :: listed
+    | ["l", n] =>
+      if !listed.contains n then
+        if bad.isNone then
+          bad := some s!"left-without-having-joined:{n}"
+      else listed := listed.filter (· != n)
+    | _ => pure ()
+  if bad.isNone && sorted listed != sorted members then bad := some s!"event-replay-differs-from-Members:replay={String.intercalate "+" (sorted listed)}"
+  if bad.isNone && !members.contains "S" then bad := some "running-node-does-not-list-itself"
+  -- the double own join in this window is what the code (and its model: a record created dead, refuted, announced;
+  -- then announced again by setAlive) does: recorded finding, the model agrees with the implementation there
+  let agree := bad.isNone || bad == some "own-join-delivered-twice-in-the-start-up-window"
+  return verdict agree bad (about == "S") s!"boot-{about}" ""
+
 def handle (kind : String) (fs : List (String × String)) : String :=
   match kind with
+  | "boot" => handleBoot fs
   | "resetsel" => handleReset fs
   | "movedead" => handleMoveDead fs
   | "krand" => handleKRand fs
